@@ -1931,8 +1931,21 @@ impl<'a> Run<'a> {
             // In a session in which a liar announced the genuine header with another body, the
             // outcome is attributed to that announcement (one signature per kind of change).
             if let (Some(t), false) = (s.tampered, v.signature.starts_with("harness:")) {
+                // two different outcomes: a block other than the committed one is handed on (stored,
+                // tip, broadcast), or the relay of the committed block by honest peers is obstructed
+                let another_block = [
+                    "broadcast:compact-block-of-unknown-block",
+                    "broadcast:compact-block-differs",
+                    "session:tip-moved-to-a-block-the-model-never-built",
+                    "session:tip-moved-to-unexpected-block",
+                ]
+                .iter()
+                .any(|p| v.signature.starts_with(p));
                 v.detail = format!("[{}] {}", v.signature, v.detail);
-                v.signature = format!("relay:after-compact-block-with-genuine-header-and-tampered-body:{t:?}");
+                v.signature = format!(
+                    "relay:after-compact-block-with-genuine-header-and-tampered-body:{t:?}:{}",
+                    if another_block { "another-block-handed-on" } else { "honest-relay-obstructed" }
+                );
             }
             return Err(v);
         }
